@@ -30,14 +30,14 @@ import (
 )
 
 type c09Cut struct {
-	At    int    `json:"at"`   // byte offset into the body served (-1: whole body)
-	Kind  string `json:"kind"` // error | eof
+	At   int    `json:"at"`   // byte offset into the body served (-1: whole body)
+	Kind string `json:"kind"` // error | eof
 }
 
 type c09Spec struct {
-	K          int      `json:"k"`       // progress notifications before the response
-	Prime      bool     `json:"prime"`   // priming event (id only) first
-	IDs        bool     `json:"ids"`     // events carry ids
+	K          int      `json:"k"`     // progress notifications before the response
+	Prime      bool     `json:"prime"` // priming event (id only) first
+	IDs        bool     `json:"ids"`   // events carry ids
 	RetryField bool     `json:"retry_field"`
 	MaxRetries int      `json:"max_retries"`
 	FirstCut   c09Cut   `json:"first_cut"`
@@ -123,19 +123,19 @@ func (b *c09Body) Read(p []byte) (int, error) {
 func (b *c09Body) Close() error { return nil }
 
 type c09Server struct {
-	c      *vh.Case
-	spec   c09Spec
-	mu     sync.Mutex
-	events []vhm.SSEvent // the logical stream of the call
-	text   []string      // wire text per event
-	nRec   int
-	nOK    int
-	served [][]byte // bytes actually served per body
-	leids  []string
-	fatal  bool
+	c       *vh.Case
+	spec    c09Spec
+	mu      sync.Mutex
+	events  []vhm.SSEvent // the logical stream of the call
+	text    []string      // wire text per event
+	nRec    int
+	nOK     int
+	served  [][]byte // bytes actually served per body
+	leids   []string
+	fatal   bool
 	runaway bool
-	callID string
-	tok    any
+	callID  string
+	tok     any
 }
 
 func (s *c09Server) resp(req *http.Request, status int, ctype string, body io.ReadCloser, hdr map[string]string) *http.Response {
@@ -358,7 +358,7 @@ func runC09(c *vh.Case, spec c09Spec) {
 		return
 	}
 	// what has the client received completely, according to an independent strict parser?
-	cursor := ""           // id of the last event received completely
+	cursor := ""          // id of the last event received completely
 	var complete []string // data of complete message events, in order of receipt
 	li := 0
 	consecutive, maxConsecutive := 0, 0
